@@ -213,6 +213,7 @@ class C23(Property):
     drivers = ["Drivers/C23.lean"]
     translators = []
     quick_budget_s = 900
+    thorough_budget_s = 3000
     rule = ("(1) stream ops: random read/seek sequences on the real SeekableStreamReaderWrapper over a chunking fake stream (policies: at most "
             "k bytes per raw read, k in 1..65536; pseudo-random sizes depending on request and remaining) vs the Lean reader; (2) archives of "
             "random trees written by GNU tar (gnu/ustar/posix), Python tarfile (GNU/USTAR/PAX) and the async writer, read by the real "
@@ -288,7 +289,8 @@ class C23(Property):
         if simple == "long":
             make_tree(rng, src, max_entries=rng.choice([4, 10]), nasty=0.5, symlinks=False, long_names=True, big=None)
             return src, base, {"tarfile-gnu": py_tar(parent, base, tarfile.GNU_FORMAT), "gnutar-gnu": gnu_tar(parent, base, "gnu"),
-                               "async-writer": async_write(src, base)}
+                               "async-writer": async_write(src, base), "tarfile-pax": py_tar(parent, base, tarfile.PAX_FORMAT),
+                               "gnutar-posix": gnu_tar(parent, base, "posix"), "async-writer-pax": async_write(src, base, tarfile.PAX_FORMAT)}
         make_tree(rng, src, max_entries=rng.choice([0, 3, 8, 30]) if not simple else rng.choice([1, 4, 8]), nasty=0.0 if simple else 0.5,
                   symlinks=not simple, long_names=not simple, big=big)
         arch = {}
@@ -431,8 +433,10 @@ class C23(Property):
         for name, content in ((longname, b"long-named\n" * 50), ("s1", b"one"), ("s2", b"two" * 300), ("d/inner", b"in"), ("é " + "z" * 110, b"second long")):
             with open(os.path.join(src, name), "wb") as f:
                 f.write(content)
-        orders = [["src", "src/" + longname, "src/s1", "src/s2", "src/d", "src/d/inner", "src/é " + "z" * 110],
-                  ["src", "src/s1", "src/" + longname, "src/d", "src/d/inner", "src/é " + "z" * 110, "src/s2"]]
+        # a second name (hard link) for s2: archived as a link member after the file itself
+        os.link(os.path.join(src, "s2"), os.path.join(src, "h2"))
+        orders = [["src", "src/" + longname, "src/s1", "src/s2", "src/h2", "src/d", "src/d/inner", "src/é " + "z" * 110],
+                  ["src", "src/s1", "src/" + longname, "src/d", "src/d/inner", "src/é " + "z" * 110, "src/s2", "src/h2"]]
         want = snapshot(src)
         for oi, members in enumerate(orders):
             arch = {"tarfile-pax": py_tar_members(parent, members, tarfile.PAX_FORMAT), "gnutar-posix": gnu_tar_members(parent, members, "posix"),
